@@ -104,9 +104,11 @@ def run(f, fixture, rep, cfg, tier):
                  ("tags.2", ID + "StringArray{self.program<Some>.0}")]
     rep.check(rows == want_rows, "R2", "scriptlet|apply", "Scriptlet::apply writes script/flags/program under tags .0/.1/.2", "Scriptlet::apply writes %s" % rows, ap.span)
     applies = {}
+    from idioms import expand_rows
     for c in pd.calls():
         if c.decl.endswith("types::Scriptlet::apply"):
-            applies[render(tb.term(c.args[0]))] = render(tb.term(c.args[3]))
+            for (a0, a3) in expand_rows((tb.term(c.args[0]), tb.term(c.args[3]))):
+                applies[render(a0)] = render(a3)
     for field, fam in SCRIPT_FIELDS.items():
         want = "(constants::IndexTag::RPMTAG_%s, constants::IndexTag::RPMTAG_%sFLAGS, constants::IndexTag::RPMTAG_%sPROG)" % (fam, fam, fam)
         got = applies.get("self.%s<Some>.0" % field)
